@@ -150,8 +150,15 @@ def run(ctx):
         ctx.flush()
     for i in range(n_random):
         n = gen.log_int(rng, 2, maxlen_r)
-        kind = rng.choice(['excursions', 'noise', 'plateau', 'dyadic', 'tiny-scale', 'near-tie'])
-        if kind == 'tiny-scale':
+        kind = rng.choice(['excursions', 'noise', 'plateau', 'dyadic', 'tiny-scale', 'near-tie', 'wide-range', 'wide-range'])
+        if kind == 'wide-range':
+            # strong motion followed / preceded by a coda 2^-55 ... 2^-75 of its size, with exact zeros in it: a non-zero sample is
+            # non-zero whatever the peak of the record is
+            m = max(2, n // 2)
+            big = gen.int_record(rng, m) * 2.0 ** rng.choice([0, 10])
+            rip = gen.int_record(rng, max(2, n - m)) * 2.0 ** -rng.choice([55, 60, 75])
+            v = (np.concatenate([big, rip]) if rng.random() < 0.5 else np.concatenate([rip, big])).tolist()
+        elif kind == 'tiny-scale':
             v = (gen.dyadic_record(rng, n) * 2.0 ** -rng.choice([30, 40, 60])).tolist()
         elif kind == 'near-tie':
             v = (gen.int_record(rng, n) + np.array([rng.choice([0, 1, -1, 2]) * 2.0 ** -rng.choice([28, 34, 40]) for _ in range(n)])).tolist()
